@@ -18,6 +18,7 @@ LEVEL = "model_checking"
 STD_Q = [
     {"cb": 9, "K": 32, "full": True, "sel": 6},
     {"cb": 9, "K": 32, "full": True, "version": 2, "sel": 8},
+    {"cb": 9, "K": 32, "full": True, "version": 2, "sel": 8, "backing_fmt_ext": False, "end_marker": False, "backing_name": "disk0001.img"},  # old style: name right behind the 72-byte header
     {"cb": 9, "K": 32, "full": True, "sel": 8, "datafile_ext": False, "backing_fmt_ext": False},   # optional header extensions absent
     {"cb": 10, "K": 64, "full": True, "sel": 8, "comp_level": 0, "comp_max": True},                # stored deflate: compressed size ~ cluster size
     {"cb": 12, "K": 256, "full": False, "max_len": 1 << 20, "sel": 12, "comp_level": 0},
@@ -58,7 +59,8 @@ def build(img, prof, size_bytes=None):
                                     host_shift=prof.get("host_shift", 0), l2_shift=prof.get("l2_shift", 0),
                                     copied=prof.get("copied", True), comp_maximal=prof.get("comp_max", False), size_bytes=size_bytes,
                                     comp_level=prof.get("comp_level", 6), datafile_ext=prof.get("datafile_ext", True),
-                                    backing_fmt_ext=prof.get("backing_fmt_ext", True))
+                                    backing_fmt_ext=prof.get("backing_fmt_ext", True), end_marker=prof.get("end_marker", True),
+                                    backing_name=prof.get("backing_name"))
     cell = info["cell"]
     backing = None
     if img["back"] >= 0:
